@@ -69,6 +69,15 @@ CHECKS["C11"] = dict(level="translation_validation", design="DESIGN 5/C11",
    text="For each target opset (quick 21/23/26, thorough 21..27) and each program the model must declare that opset and every node, recursively and in function bodies, must resolve to an operator definition existing at that opset with the attributes and input arity used (a refusal is reported only when onnx.checker rejects the model too); the model is then proved equivalent to the JAX jaxpr for all inputs with the opset-versioned evaluator. An explicit export error is accepted. Value differences present at every opset belong to C01 and are not repeated.",
    note="Opset axis enumerated (six/seven values); opset 27 cannot be loaded by the installed ORT: structural + symbolic only.")
 
+CHECKS["C03"] = dict(level="translation_validation", design="DESIGN 5/C03",
+   technique="shape mode: z3 decides every operator's shape/type obligation for all bindings of named dimensions; strict encodability predicates replayed with onnx.checker / strict inference / ORT load",
+   text="Partial claim. For models exported with named dimensions the shape-mode evaluator (dims as z3 integers) collects every operator obligation - broadcast compatibility, Reshape element counts and -1/0 rules, MatMul/Gemm/Concat agreement, Loop-carried shape invariance - in the top graph, If/Loop bodies and inlined function bodies, and z3 decides them for ALL bindings >= 1 (the generalisation of `strict shape inference passes` from the traced binding to every binding). Structural well-formedness (single definition per scope, visibility, call arity, imported domains, schema availability) is a closed predicate evaluated by the encoder; every refusal must be confirmed by onnx.checker(full_check), strict shape inference or an ORT session, which are also run on every model as direct observations, over flat / nested control-flow / nested @onnx_function programs x {opset 21/23/26, double, symbolic}.",
+   note="Only the binding-universal shape part is solver-decided; ORT-specific load failures and file mode not claimed; opset-availability defects belong to C11.")
+CHECKS["C08"] = dict(level="translation_validation", design="DESIGN 5/C08",
+   technique="shape mode: z3 decides declared dimension == runtime dimension for all bindings, for every annotated value; CrossHair on the shape-loosening kernel",
+   text="Every element type and every declared integer dimension or symbol of every value_info (graph inputs/outputs, intermediates, If/Loop bodies, inlined function bodies) is compared with the runtime shape computed by the shape-mode evaluator; for models with named dimensions the equality is a z3 query over unbounded integer dims, so an annotation must hold for every binding, not the traced one. Witness bindings are replayed in ONNX Runtime with the annotated value exposed as an additional output. CrossHair executes ir_postprocess._unknown_shape_like through onnx_ir objects: a dimension is kept or made unknown, never changed.",
+   note="Loop bodies evaluated once with loop-invariant carried shapes; nested-body annotations decided but not replayable; data-dependent shapes not encodable.")
+
 for _k in ("C05", "C13", "C17", "C18", "C19"):
     CHECKS[_k]["engine"] = "E1"
 
